@@ -35,6 +35,10 @@ var spellings = [][3]string{{"op", "path", "from"}, {"op", "path", "From"}, {"Op
 
 func (o op) json() string {
 	n := spellings[o.spell]
+	if o.kind == "<none>" {
+		// an operation without the op member that carries every other member: whatever it is taken for, it is not applied as something
+		return fmt.Sprintf(`{%q:%q,%q:%q,"value":%s}`, n[1], o.path, n[2], o.from, o.value)
+	}
 	s := fmt.Sprintf(`{%q:%q,%q:%q`, n[0], o.kind, n[1], o.path)
 	if o.kind == "move" || o.kind == "copy" {
 		s += fmt.Sprintf(`,%q:%q`, n[2], o.from)
@@ -56,7 +60,7 @@ func (o op) key() string {
 		}
 		return p
 	}
-	if o.kind == "move" || o.kind == "copy" {
+	if o.kind == "move" || o.kind == "copy" || o.kind == "<none>" {
 		return o.kind + " from=" + q(o.from) + " path=" + q(o.path) + sp
 	}
 	return o.kind + " path=" + q(o.path) + sp
@@ -123,6 +127,10 @@ func build() setup {
 			}
 			singles = append(singles, op{"move", p, f, "", 0}, op{"copy", p, f, "", 0})
 		}
+	}
+	// operations without an op member, alone
+	for _, prot := range []string{"/publicKey/0", "/publicKey", "/service", "/service/0"} {
+		singles = append(singles, op{"<none>", "/spare", prot, values[0], 0}, op{"<none>", prot, "/other", values[2], 0})
 	}
 	// the same operations on the protected members with member names in other letter case
 	for sp := 1; sp < len(spellings); sp++ {
@@ -251,6 +259,12 @@ func Worker(args []string) {
 			for _, suf := range []string{"", "/0", "/0/id", "/-", "/id", "/1"} {
 				xs = append(xs, base+suf)
 			}
+		}
+		// an operation without an op member behind the copy / move (and before it): it has a from and a path like a move
+		for _, prot := range []string{"/publicKey/0", "/publicKey", "/service", "/service/0"} {
+			run(di, list{a, op{"<none>", "/spare", prot, values[0], 0}})
+			run(di, list{a, op{"<none>", prot, "/other", values[2], 0}})
+			run(di, list{op{"<none>", "/spare", prot, values[0], 0}, a})
 		}
 		for _, x := range xs {
 			for _, v := range values {
